@@ -28,6 +28,7 @@ import (
 	"strings"
 	"sync"
 	"sync/atomic"
+	"syscall"
 	"testing"
 	"time"
 
@@ -2215,4 +2216,41 @@ func TestVerifC19(t *testing.T) {
 	r.Sample(map[string]any{"enum_form": c19Forms()[20].name, "prefix_hex": hex.EncodeToString(c19Forms()[20].pre)})
 	pprof.StopCPUProfile()
 	os.Exit(r.Write())
+}
+
+// ---------------------------------------------------------------- debugging aid (not part of the check)
+
+func c19CPU() time.Duration {
+	var ru syscall.Rusage
+	syscall.Getrusage(syscall.RUSAGE_SELF, &ru)
+	return time.Duration(ru.Utime.Nano() + ru.Stime.Nano())
+}
+
+// TestVerifC19Bench prints CPU cost per round trip for a few configs (VERIF_C19_BENCH=1).
+func TestVerifC19Bench(t *testing.T) {
+	if os.Getenv("VERIF_C19_BENCH") == "" {
+		t.Skip()
+	}
+	if g := os.Getenv("VERIF_C19_GOGC"); g != "" {
+		var n int
+		fmt.Sscan(g, &n)
+		debug.SetGCPercent(n)
+	}
+	h := &c19H{r: ev.New("C19bench", "exploration"), workers: 1, counts: map[string]int64{}, outcome: map[string]int64{}, info: map[string][]any{}, cli: map[string]string{}}
+	h.cur = make([]atomic.Pointer[c19Running], 2)
+	h.mkDecs()
+	for _, c := range c19AllCfgs() {
+		if !(c.NoLevel || c.Level == 9 || c.Level == 1<<17 || c.Level == 4) {
+			continue
+		}
+		comp, _, _ := c19NewCompressor([]c19Cfg{c})
+		w := &c19W{h: h, counts: map[string]int64{}, outcome: map[string]int64{}, batches: map[string]*c19Batch{}}
+		c0, t0 := c19CPU(), time.Now()
+		const n = 20000
+		for i := 0; i < n; i++ {
+			b := []byte{byte(i >> 8), byte(i)}
+			w.rt(comp, []c19Cfg{c}, nil, c19Lit(b), b, nil)
+		}
+		fmt.Printf("%-16v cpu/op=%v wall/op=%v\n", c, (c19CPU()-c0)/n, time.Since(t0)/n)
+	}
 }
